@@ -9,7 +9,7 @@ import vlib
 
 POOL = {1: "0", 2: "2", 3: "75", 4: "50", 5: "0.3", 6: "7", 7: "750", 8: "-75", 9: "+75", 10: ".5", 11: "1.5", 12: "1e3", 13: "999999",
         14: "1000000", 15: "1000001", 16: "16777215", 17: "16777217", 18: "2147483647", 19: "-2147483648", 20: "0.1", 21: "1e-7",
-        22: "1.234567", 23: "100.5", 24: "33.3333333", 25: "+.5", 26: "-0", 27: "+26", 28: "1E2", 29: "2", 30: "+1", 31: "1e37", 32: "3000000000", 33: "-99999999999"}
+        22: "1.234567", 23: "100.5", 24: "33.3333333", 25: "+.5", 26: "-0", 27: "+26", 28: "1E2", 29: "2", 30: "+1", 31: "1e37", 32: "3000000000", 33: "-99999999999", 34: "+0"}
 PLACEHOLDERS = {"~E~": "é", "~Z~": "字", "~M~": "😀", "~L~": "«", "~R~": "»"}
 F32_EPS = Fraction(1, 2 ** 23)
 F32_MAX = Fraction(2 ** 128 - 2 ** 104)
@@ -305,6 +305,10 @@ def tok_matches(exp, act, ratio, findings, where):
                 return "unit %r vs %r" % (unit, aunit)
             if k == "pct":
                 got = got * 100
+            if sp.startswith("+") and v.get("sign") is False:
+                # an explicit sign is part of the token (has_sign) and of the An+B micro-syntax (`2n +0` / `2n 0`)
+                findings.append(("numbers", where, "the explicit sign of %s%s is lost: %s" % (sp, unit, act["text"])))
+                return "signed number %s%s written without its sign (%r)" % (sp, unit, act["text"])
             if is_int_spelling(sp) and -2 ** 31 <= vin < 2 ** 31:
                 # integers are preserved *as tokens*: the re-tokenised output must be the same integer
                 ai = v.get("int")
